@@ -58,6 +58,8 @@ def patterns():
         "E4": arr(3, 4, [0, 1], sym=True, adj=[(0, -1), (0, 1)]),      # a cell's own mirror image sits at a forbidden offset
         "E5": arr(1, 6, [0, 1, 2], sym=True, adj=[(0, -1), (0, 1)]),
         "E6": arr(4, 3, [0, 1], sym=True, adj=[(-1, 0), (1, 0)]),
+        "E7": arr(2, 2, [0, 1, 2], sym=True, adj=[(dy, dx) for dy in (-1, 0, 1) for dx in (-1, 0, 1) if (dy, dx) != (0, 0)]),
+        "E8": arr(4, 4, [0, 1], sym=True, adj=[(-1, -1), (-1, 1), (1, -1), (1, 1), (0, 1), (0, -1)]),
         # values beyond CPython's small-int cache, the default given as a distinct object from the equal choice element
         "L1": (lambda: ArrayBuilder2D(2, 3, [int("300"), int("301"), int("302")], default=int("300"), symmetry=True),
                {"kind": "array", "h": 2, "w": 3, "choice": [300, 301, 302], "default": 300, "symmetry": True,
@@ -218,6 +220,20 @@ def replay_small_domain(rec):
                 got = {"ok": "raised " + type(e).__name__, "val": 0, "used": src.k}
             if got != c["r"]:
                 bad.append({"D": rec["D"], "a": rec["a"], "b": rec["b"], "raws": c["raws"], "expected": c["r"], "observed": got})
+            # choice over a candidate sequence of the same width: the same raw draws must pick the element at the same index
+            src = ScriptedRaw(c["raws"])
+            dr._rng = src
+            cand = [("cand", i) for i in range(rec["b"] - rec["a"] + 1)]
+            try:
+                v = dr.choice(cand)
+                got2 = {"ok": True, "val": rec["a"] + v[1], "used": src.k}
+            except IndexError:
+                got2 = {"ok": False, "val": 0, "used": src.k}
+            except Exception as e:  # noqa
+                got2 = {"ok": "raised " + type(e).__name__, "val": 0, "used": src.k}
+            if got2 != c["r"]:
+                bad.append({"D": rec["D"], "a": rec["a"], "b": rec["b"], "raws": c["raws"], "expected": c["r"], "observed": got2,
+                            "function": "choice"})
     finally:
         dr._XORSHIFT_DOMAIN_SIZE, dr._rng = saved
     return bad
